@@ -106,6 +106,9 @@ def faults(g):
     add("unclosed-tag", '<%def name="d9()">x', pos=False, line=False)
     add("unterminated-control", "% if x:\na\n", line_start=True)
     add("unterminated-control-nested", "% for a in b:\n% if x:\na\n% endif\n", line_start=True)
+    # two control lines still open at the end of the input: the innermost one is named, at its own line
+    add("unterminated-control-two-open", "% for a in b:\n" + "x\n" * k + "% if x:\na\n", at=len("% for a in b:\n" + "x\n" * k), line_start=True)
+    add("unterminated-control-three-open", "% if y:\n% for a in b:\n" + "x\n" * k + "% while x:\na\n", at=len("% if y:\n% for a in b:\n" + "x\n" * k), line_start=True)
     add("mismatched-control", "% if x:\na\n% endfor\n", at=len("% if x:\na\n"), line_start=True)
     add("end-without-start", "% endif\n", line_start=True)
     add("illegal-ternary", "% for a in b:\nx\n% elif y:\nz\n% endfor\n", at=len("% for a in b:\nx\n"), line_start=True)
